@@ -32,6 +32,8 @@ func runC08(c *eng.Ctx) {
 	ruleNegativeSettingsTakeTheDefault(c)
 	c.Rule("R08.9", "K3")
 	ruleCompactedSegmentsArePublishedAsTheyAreReplaced(c)
+	c.Rule("R08.10", "K4")
+	ruleSegmentListsAreNeverRewrittenInPlace(c)
 	c.Rule("R01.8", "K5")
 	ruleNoEntryAtOrBelowIsMinusOne(c)
 	p := c.P
@@ -243,9 +245,43 @@ func runC08(c *eng.Ctx) {
 		c.Check(held, "replaced flag set under the old segment's lock in "+a.Fn.Name(), c.Pos(st), "old segment write-locked", "segment.replaced is set without the segment's lock: a concurrent ReadAt can report ErrSegmentClosed instead of ErrSegmentReplaced")
 	}
 	if fn := c.Fn(cl + "cleanupEmptySegment"); fn != nil {
+		// which of its parameters is the one flagged as replaced — and at every call, that is the segment that was in the
+		// log (the one Cleaned() was called on), not the throw-away segment made from it
+		flagged := -1
+		for _, a := range eng.StoresToField(p, rep, true) {
+			if a.Fn != fn {
+				continue
+			}
+			for i, prm := range fn.Params {
+				if a.Base == ssa.Value(prm) {
+					flagged = i
+				}
+			}
+		}
+		if flagged < 0 {
+			c.Unresolved("the parameter of cleanupEmptySegment whose replaced flag is set")
+		} else {
+			sites := 0
+			for _, caller := range p.Funcs {
+				for _, call := range eng.CallsIn(caller, cl+"cleanupEmptySegment") {
+					sites++
+					arg := call.Common().Args[flagged]
+					isOld := false
+					for _, cc := range eng.CallsIn(caller, cl+"segment.Cleaned") {
+						if cc.Common().Args[0] == arg {
+							isOld = true
+						}
+					}
+					c.Check(isOld, "the segment flagged as replaced is the one compaction read from", c.Pos(call.(ssa.Instruction)), "cleanupEmptySegment's flagged parameter receives the segment Cleaned() was called on", "the segment handed to cleanupEmptySegment as the one to flag as replaced is not the segment that was in the log: the flag lands on the throw-away cleaned segment, and a reader positioned in the removed segment gets ErrSegmentClosed instead of re-positioning")
+				}
+			}
+			if sites == 0 {
+				c.Unresolved("a call of cleanupEmptySegment")
+			}
+		}
 		dels := eng.CallsIn(fn, cl+"segment.Delete")
 		for _, d := range dels {
-			if eng.Param("old")(d.Common().Args[0]) {
+			if flagged >= 0 && d.Common().Args[0] == ssa.Value(fn.Params[flagged]) {
 				g, w := eng.PrecededBy(fn, d.(ssa.Instruction), func(in ssa.Instruction) bool {
 					st, ok := in.(*ssa.Store)
 					if !ok {
@@ -284,7 +320,7 @@ func runC08(c *eng.Ctx) {
 			uses := false
 			switch x := in.(type) {
 			case *ssa.Return:
-				for _, r := range x.Results {
+				for _, r := range eng.RetVals(x) {
 					if isRep(r) {
 						uses = true
 					}
